@@ -26,7 +26,7 @@ RULE = (
     "Each step is compared with the model. Non-trivial = a rewind after a partial read (0<k<all) or two rewinds, "
     "with overlap or max_read active."
 )
-MUST_HIT = ["rewind_after_zero_reads", "rewind_twice_in_a_row", "overlap_maxread_partial", "non_recording",
+MUST_HIT = ["source_already_partly_consumed", "rewind_after_zero_reads", "rewind_twice_in_a_row", "overlap_maxread_partial", "non_recording",
             "data_before_rewind", "replay_read"]
 ASSUMPTIONS = ["block model of C10"]
 BOUNDS = {"quick": dict(n=400, steps=30), "thorough": dict(n=3000, steps=40)}
@@ -58,6 +58,8 @@ class Interp:
             self.B, self.H = c10.sizes(cfg, self.reader, self.case())
             self.reader.open()
         self.skip = self.H == 0
+        if cfg.get("prepos") and cfg["kind"] == "buffer":
+            self.classes.add("source_already_partly_consumed")
         self.recording = cfg["how"] != "plain"
         V = N if limit is None else max(0, min(N, limit))
         self.V = V
@@ -188,6 +190,7 @@ def config(draw, maxN=50):
         kind=draw(st.sampled_from(["bytes", "bytes", "raw_lazy", "wav_lazy", "buffer"])),
         how=draw(st.sampled_from(["record", "Recorder", "record", "Recorder", "plain"])),
         salt=draw(st.integers(0, 10**6)),
+        prepos=draw(st.sampled_from([0, 0, 3, 7])),
     )
 
 
@@ -227,6 +230,7 @@ def explicit_cases():
     return [
         {"cfg": cfg, "ops": ["data", "read", "read", "rewind", "data", "read", "read", "read", "rewind", "rewind", "data", "read"]},
         {"cfg": dict(cfg, how="Recorder"), "ops": ["rewind", "read", "read", "data"]},
+        {"cfg": dict(cfg, kind="buffer", prepos=5), "ops": ["read", "read", "rewind", "data", "read", "read", "read"]},
         {"cfg": dict(cfg, how="plain"), "ops": ["read", "data", "rewind", "read"]},
         {"cfg": dict(cfg, H=None, mr=None, kind="wav_lazy"), "ops": ["read"] * 7 + ["rewind", "data"] + ["read"] * 7},
     ]
